@@ -2,7 +2,7 @@ use crate::execute::{
     circuit_breaker, execute_submit_batch, fee_withdraw, handle_ibc_reply, receive_rewards,
     receive_unstaked_tokens, recover, resume_contract, update_config,
 };
-use crate::helpers::{validate_addresses, validate_denom};
+use crate::helpers::{checked_deadline, validate_addresses, validate_denom};
 use crate::ibc::{receive_ack, receive_timeout};
 use crate::migrations;
 use crate::query::{
@@ -100,7 +100,7 @@ pub fn instantiate(
     let pending_batch = Batch::new(
         1,
         Uint128::zero(),
-        env.block.time.seconds() + config.batch_period,
+        checked_deadline(env.block.time, config.batch_period)?,
     );
 
     // Set pending batch and batches
